@@ -106,9 +106,10 @@ def c17_3(ctx):
     ifs = [i for i in walk_no_nested(load.node) if isinstance(i, ast.If) and any(x is node for x in ast.walk(i))]
     inner = min(ifs, key=lambda i: i.end_lineno - i.lineno)
     res = resolver(ctx, load, inline=False)
-    st = next(n for n in walk_no_nested(inner) if isinstance(n, ast.Assign) and n.value is node)
-    v = unparse(st.targets[0])
-    ext = [c for c in ast.walk(inner) if isinstance(c, ast.Call) and isinstance(c.func, ast.Attribute) and c.func.attr == 'extend' and unparse(c.args[0]) == v]
+    st = next((n for n in walk_no_nested(inner) if isinstance(n, ast.Assign) and n.value is node), None)
+    v = unparse(st.targets[0]) if st is not None else None
+    ext = [c for c in ast.walk(inner) if isinstance(c, ast.Call) and isinstance(c.func, ast.Attribute) and c.func.attr == 'extend' and c.args
+           and (c.args[0] is node or (v is not None and unparse(c.args[0]) == v))]
     out = next((unparse(r.value) for r in returns(load) if r.value is not None), None)
     ok = len(ext) == 1 and unparse(ext[0].func.value) == out and isinstance(inner.body[-1], ast.Continue)
     ctx.check(ok, 'splice:in-place', load.site(node), 'the included file\'s lines are appended at the point of inclusion, then the next line is read', f'{[unparse(x) for x in ext]} -> {out}')
@@ -152,10 +153,17 @@ def c17_6(ctx):
     ok = first is not None and unparse(first.value) == '[os.path.dirname(self._source_file)] + list(self._include_paths)'
     ctx.check(ok, 'dirs:source-dir-and-options', eng.site(first) if first else eng.site(), 'the search directories are the source file\'s directory plus the -I directories',
               unparse(first.value) if first else 'none')
-    cmps = [c for c in ast.walk(eng.node) if isinstance(c, ast.Compare) and 'left_path' in unparse(c) and 'right_path' in unparse(c)]
-    ok = len(cmps) == 1 and unparse(cmps[0]) in ('left_path == right_path', 'right_path == left_path')
-    defs = {unparse(n.targets[0]): unparse(n.value) for n in walk_no_nested(eng.node) if isinstance(n, ast.Assign) and unparse(n.targets[0]) in ('left_path', 'right_path')}
-    ok = ok and defs.get('left_path') == 'os.path.realpath(include_dirs[i])' and defs.get('right_path') == 'os.path.realpath(include_dirs[j])'
+    # every comparison that involves a search directory's path compares two real paths for equality, nothing weaker
+    import re as _re
+    defs = {unparse(n.targets[0]): unparse(n.value) for n in walk_no_nested(eng.node) if isinstance(n, ast.Assign) and isinstance(n.targets[0], ast.Name)
+            and isinstance(n.value, ast.Call) and unparse(n.value.func) == 'os.path.realpath'}
+
+    def _real(e):
+        t = defs.get(unparse(e), unparse(e))
+        return bool(_re.fullmatch(r'os\.path\.realpath\(include_dirs\[\w+\]\)', t))
+    cmps = [c for c in ast.walk(eng.node) if isinstance(c, ast.Compare) and any(unparse(x) in defs or 'realpath' in unparse(x) or 'include_dirs[' in unparse(x)
+                                                                                 for x in [c.left] + list(c.comparators))]
+    ok = len(cmps) >= 1 and all(len(c.ops) == 1 and isinstance(c.ops[0], (ast.Eq, ast.NotEq)) and _real(c.left) and _real(c.comparators[0]) for c in cmps)
     ctx.check(ok, 'dirs:dedup-exact-realpath', eng.site(cmps[0]) if cmps else eng.site(),
               'two search directories are merged only when their real paths are identical',
               f'{[unparse(c) for c in cmps]} with {defs}')
